@@ -61,6 +61,8 @@ def hess_names(n):
 def hessian(n, name, v):
     if n == 1:
         return np.array([[1.0 if name == "h1" else 100.0]])
+    if name == "stiff":
+        return np.diag(np.logspace(4, 7, n))
     if name == "diag":
         return np.diag(np.logspace(0, 2, n))
     c = 2 if name == "rot2" else 4
@@ -198,6 +200,9 @@ def _bench(name):
 BENCH = ("ackley", "beale", "griewank", "quartic", "rastrigin", "rosenbrock", "sphere",
          "styblinski_tang")
 NONCONVEX = BENCH + ("oscil", "expsum", "badscale", "linear", "coswell")
+# objective undefined (nan) on part of the box: the solver must treat such trial points as
+# "not better" and never accept them
+UNDEFINED = ("xlogx",)
 # objectives whose gradient is constant over long stretches: every candidate pair has
 # y = 0 and is rejected, so runs carry an *empty* memory for several iterations
 PAIRLESS = ("biglinear", "huber")
@@ -216,6 +221,10 @@ def nonconvex_fg(name, n):
     if name == "badscale":
         w = np.array([1e6 if i % 2 == 0 else 1e-3 for i in range(n)])
         return (lambda x: 0.5 * np.sum(w * (x - 0.3) ** 2), lambda x: w * (x - 0.3))
+    if name == "xlogx":
+        with np.errstate(all="ignore"):
+            return (lambda x: 5.0 * float(np.sum(x * np.log(x) - 0.3 * x)),
+                    lambda x: 5.0 * (np.log(x) + 0.7))
     if name == "coswell":
         # smooth, non-convex, with negative-curvature regions between shallow wells:
         # pairs get rejected and line searches fail one after the other
@@ -287,6 +296,8 @@ def nonconvex_problem(case):
         base = np.array([5.2 * ((-1.0) ** (i + 1)) + 0.17 * i + 0.13 * v for i in range(n)])
     if case["fam"] == "coswell2":
         base = np.array([-5.21753330983786, 5.3847609028709975])
+    if case["fam"] == "xlogx":
+        base = np.array([2.1 - 0.35 * i + 0.03 * v for i in range(n)])   # inside the domain
     base = np.clip(base, np.where(np.isfinite(lb), lb + 0.05, -INF),
                    np.where(np.isfinite(ub), ub - 0.05, INF))
     x0 = base.copy()
